@@ -1279,8 +1279,11 @@ fn main() {
     w.flush();
     // one violation per key is enough for the report (keep the first few of each)
     let mut per_key: HashMap<String, usize> = HashMap::new();
-    let vj: Vec<serde_json::Value> = viols
-        .iter()
+    // violations that are not the recorded finding F7 first (bin/check shows the first one)
+    let mut ordered: Vec<&Viol> = viols.iter().filter(|v| !v.key.starts_with("F7-")).collect();
+    ordered.extend(viols.iter().filter(|v| v.key.starts_with("F7-")));
+    let vj: Vec<serde_json::Value> = ordered
+        .into_iter()
         .filter(|v| {
             let e = per_key.entry(v.key.clone()).or_insert(0);
             *e += 1;
